@@ -108,6 +108,12 @@ def _fea(fam, spec, nloc, odd):
         if not (c == "kernx" and odd):
             rules.append("pos b c %d;" % V(25, 1))
         rules.append("pos e a <%d 0 %d 0>;" % (V(15, 3), V(-20, 4)))
+        if c == "kernx":
+            # (c, a) is an exception pair in some masters only: the others kern it through the class
+            # pair below while still having another exception pair for c
+            rules.append("pos c b %d;" % V(-12, 5))
+            if not odd:
+                rules.append("pos c a %d;" % V(33, 6))
         if not (c == "kernx" and odd):
             rules.append("pos [c e] [a e] %d;" % V(10, 2))
         else:
